@@ -16,7 +16,7 @@ for d in "${dirs[@]}"; do
   S=/var/tmp/hvc-self
   rm -rf $S; mkdir -p $S/repo && cp -r /repo/teamserver $S/repo/teamserver
   if ! (cd $S/repo && patch -p1 -s < /verif/$d/patch.diff); then echo "SELFTEST $d: patch does not apply"; fail=1; rm -rf $S; continue; fi
-  out=$(HVC_REPO=$S/repo/teamserver HVC_OUT=$S/out bin/hvc check $prop --tier quick 2>&1); rc=$?
+  out=$(HVC_REPO=$S/repo/teamserver HVC_OUT=$S/out ${HVC_BIN:-bin/hvc} check $prop --tier quick 2>&1); rc=$?
   viol=$(echo "$out" | grep -c '^VIOLATION')
   if [ $rc -eq 1 ] && [ $viol -gt 0 ]; then
     echo "SELFTEST $d: caught by $prop ($viol violations): $(echo "$out" | grep '^VIOLATION' | head -3 | sed 's/.*obligation=//' | tr '\n' ';')"
